@@ -258,8 +258,12 @@ impl Iterator for NodeSplitIterator<'_> {
         let (char_end, byte_end) = if idx + 1 == self.splits.len() {
             (self.char_end, self.byte_end)
         } else {
+            // a dictionary can declare units which do not add up to the word:
+            // stay inside of the word and on a character boundary
             let byte_end = byte_start as usize + word_info.head_word_length();
+            let byte_end = byte_end.min(self.byte_end as usize);
             let char_end = self.text.ch_idx(byte_end);
+            let byte_end = self.text.to_curr_byte_idx(char_end);
             (char_end as u16, byte_end as u16)
         };
 
